@@ -116,7 +116,29 @@ pub fn check_history(ctx: &mut Ctx, start: &Pos, src: &mut MoveSource, max_plies
         Game::new_with_board(b0)
     } else {
         fen_clock = half;
-        let text = start.fen_with_clocks(half, full);
+        // a standard writer records the en-passant square after every double push, capturable or
+        // not: when the start has no en-passant state and a pawn of the side that just moved stands
+        // where a double push would have put it, with no enemy pawn beside it, the text may name the
+        // square behind it - the position (and its identity for repetitions) is the same
+        let mut shown = start.clone();
+        if start.ep.is_none() {
+            let mover = start.stm.other();
+            let (r4, dir): (i8, i8) = if mover == Col::W { (3, -1) } else { (4, 1) };
+            for f in 0..8i8 {
+                let s4 = mk(f, r4).unwrap();
+                let (b1, b2) = (mk(f, r4 + dir).unwrap(), mk(f, r4 + 2 * dir).unwrap());
+                if start.at(s4) == Some((mover, Kind::P)) && start.at(b1).is_none() && start.at(b2).is_none() {
+                    let mut q = start.clone();
+                    q.ep = Some(b1);
+                    if !q.ep_adjacent_pawn() && q.validate().is_ok() {
+                        shown = q;
+                        ctx.class("start:text-names-an-uncapturable-en-passant-square");
+                        break;
+                    }
+                }
+            }
+        }
+        let text = shown.fen_with_clocks(half, full);
         #[allow(deprecated)]
         let loaded = if (fp(start) >> 3) % 2 == 0 { Game::from_str(&text).ok() } else { Game::new_from_fen(&text) };
         match loaded {
@@ -195,7 +217,7 @@ pub fn run(cfg: &Cfg) -> i32 {
             let mut src = MoveSource::Explicit { moves: &ms, i: 0 };
             engine::run_one(ctx, |ctx| check_history(ctx, &start, &mut src, ms.len()))?;
         }
-        let starts = ["draw-rights", "draw-rights-b", "castle-all", "castle-all-b", "draw-bare", "draw-knights", "kiwipete", "start", "castle-partial-Kq", "mid-endgame", "ep-two-capturers", "san-rooks-black", "ep-rank-pin-w", "ep-opening", "ep-diag-pin-b", "ep-two-capturers-b", "ep-diag-legal-shuffle-b", "ep-diag-legal-shuffle-w", "ep-diag-stay-w"];
+        let starts = ["draw-rights", "draw-rights-b", "castle-all", "castle-all-b", "draw-bare", "draw-knights", "kiwipete", "start", "castle-partial-Kq", "mid-endgame", "ep-two-capturers", "san-rooks-black", "ep-rank-pin-w", "ep-opening", "ep-diag-pin-b", "ep-two-capturers-b", "ep-diag-legal-shuffle-b", "ep-diag-legal-shuffle-w", "ep-diag-stay-w", "ep-text-knight-beside-b", "ep-text-rook-beside-w", "ep-text-queen-beside-b"];
         let pol = [Policy::ReversibleNoThird, Policy::SeekRepetition, Policy::Reversible, Policy::ReversibleNoThird];
         let strat = gen::raw_hist_strategy(100, 260);
         engine::pbt(ctx, seedf(1), cfg.per_shard(20_000, 300_000), &strat, |ctx, raw: &RawHist| {
@@ -221,7 +243,7 @@ pub fn run(cfg: &Cfg) -> i32 {
     engine::finish(
         report,
         EvidenceSpec {
-            rule: "cases = game histories of 100-260 half-moves played inside a Game under policies that avoid pawn moves and captures (never creating a third occurrence / seeking repetitions / plain reversible; 1 ply in 32 is unconstrained), with unanswered draw offers interleaved (about one half-move in six), from positions with castling rights to lose, bare-piece endgames, the initial position and generated valid positions; after every half-move can_declare_draw() is compared with the draw model (no result, and >= 3 occurrences of the current position in the whole game or >= 100 half-moves without pawn move or capture) and declare_draw() on a copy of the game must return the same answer, append DeclareDraw / set DrawDeclared / refuse all further actions on success and change nothing on refusal. evaluations = query points. Non-trivial = history with >= 90 consecutive reversible half-moves, a threefold occurrence, or a castling right lost inside a counted stretch of >= 20; distinct = history fingerprints.".into(),
+            rule: "cases = game histories of 100-260 half-moves played inside a Game under policies that avoid pawn moves and captures (never creating a third occurrence / seeking repetitions / plain reversible; 1 ply in 32 is unconstrained), with unanswered draw offers interleaved (about one half-move in six), from positions with castling rights to lose (games loaded from text carry generated clocks and, where a standard writer would put one, an uncapturable en-passant square), bare-piece endgames, the initial position and generated valid positions; after every half-move can_declare_draw() is compared with the draw model (no result, and >= 3 occurrences of the current position in the whole game or >= 100 half-moves without pawn move or capture) and declare_draw() on a copy of the game must return the same answer, append DeclareDraw / set DrawDeclared / refuse all further actions on success and change nothing on refusal. evaluations = query points. Non-trivial = history with >= 90 consecutive reversible half-moves, a threefold occurrence, or a castling right lost inside a counted stretch of >= 20; distinct = history fingerprints.".into(),
             assumptions: vec![
                 "position identity is computed twice (strict: en-passant state recorded; FIDE: en-passant only when a capture is legal); points where the two disagree are counted and not asserted".into(),
                 "reference rules engine and game model".into(),
